@@ -3,134 +3,173 @@
 (* log storage (raftstore/engine/wal_storage.go, wal/manager.go, wal/watchdog.go,              *)
 (* lsm/levels.go flush + canRemoveWalSegment, lsm/memtable.go recovery, metrics/wal.go).        *)
 (*                                                                                            *)
-(* One WAL: the active segment id is the active memtable's id; LSM entries and typed raft      *)
-(* records share it. Records first sit in a user-space buffer; wal.Sync / a segment switch      *)
-(* move them to the file. Segments are removed by flush, by the watchdog and by recovery.       *)
+(* One WAL: the active segment id is the active memtable's id; LSM entries and the typed raft   *)
+(* records of SEVERAL raft groups share it. Records first sit in a user-space buffer; wal.Sync  *)
+(* / a segment switch move them to the file. Segments are removed by flush, by the watchdog and *)
+(* by recovery; all three take the minimum over the raft pointers of every group.               *)
 (*                                                                                            *)
 (*   Put          commit worker: append + wal.Sync (SyncWrites) + ack                          *)
 (*   RaftAppend   WALStorage.Append: append, wal.Sync (fix 7dfa484), pointer to manifest;        *)
 (*                first retained segment recorded in the pointer (fix bddfa3f)                  *)
 (*   RaftHS       WALStorage.SetHardState                                                       *)
 (*   RaftCompact  WALStorage.compactTo: truncation index + segment of the truncation point      *)
+(*   RaftSnap     WALStorage.ApplySnapshot: snapshot record; the log restarts after its index;   *)
+(*                truncation index = snapshot index, truncation segment = segment of that entry  *)
+(*                if the storage still tracks it, else the segment of the snapshot record       *)
 (*   Rotate       lsm.rotateLocked + SwitchSegment                                              *)
 (*   Flush        levelManager.flush: table + log pointer, then RemoveSegment if canRemove       *)
 (*   Watchdog     wal.Watchdog.observe: raft-bearing segments below the retain point and, since  *)
 (*                fix 42683e2, not above the LSM checkpoint                                     *)
-(*   Crash/Recover process crash; LSM recovery + OpenWALStorage replay                          *)
+(*   Crash/Recover process crash; LSM recovery + OpenWALStorage replay (per group)               *)
 (*                                                                                            *)
 (* Properties: C36 a removed segment holds no unflushed LSM entry and no untruncated raft       *)
-(* entry; C21 persisted hard state and entries are recovered exactly; C09 for the LSM part.     *)
+(* entry; C21 persisted hard state, snapshot and entries are recovered exactly; C09 for the LSM. *)
 EXTENDS Integers, Sequences, FiniteSets, SequencesExt, FiniteSetsExt, TLC, Json
 
 CONSTANTS MaxPuts, MaxIdx, MaxTerm, MaxSeg, MaxHist,
-          MaxOps       \* bound on the number of operations before the crash (exploration depth)
+          MaxOps,      \* bound on the number of operations before the crash (exploration depth)
+          Groups,      \* raft group ids sharing the WAL
+          Snapshots    \* BOOLEAN: RaftSnap enabled
 
-VARIABLES phase, seg, file, buf, imm, logPtr, flushed, ptr,
-          rlog, rtrunc, rhs, acked, nput,          \* ghost reference: raft log (seq of terms), truncation, hard state, acked puts
-          recLsm, recLog, recFirst, recHS, recFail, \* what recovery produced
-          nops,                                     \* operations so far (exploration bound)
-          gcRaft, badRemoval,                       \* ghost: a raft-bearing segment was removed; an unsafe removal happened
+VARIABLES phase, seg, file, buf, imm, logPtr, flushed,
+          ptr,         \* manifest raft pointers [g -> [seg, segIndex, trunc]]
+          span,        \* WALStorage.entrySpans as [g -> [index -> segment or 0]]
+          rlog, rtrunc, rsnap, rhs, acked, nput,   \* ghost reference per group: raft log (seq of terms, index 1..), truncation, snapshot, hard state; acked puts
+          recLsm, rec,                             \* what recovery produced: rec[g] = [first, log, hs, snap, fail]
+          nops,                                    \* operations so far (exploration bound)
+          gcRaft, badRemoval,                      \* ghost: groups one of whose record-bearing segments was removed; an unsafe removal happened
           hist
-vars == <<phase, seg, file, buf, imm, logPtr, flushed, ptr, rlog, rtrunc, rhs, acked, nput,
-          recLsm, recLog, recFirst, recHS, recFail, gcRaft, badRemoval, nops, hist>>
-view == <<phase, seg, file, buf, imm, logPtr, flushed, ptr, rlog, rtrunc, rhs, acked, nput,
-          recLsm, recLog, recFirst, recHS, recFail, gcRaft, badRemoval, nops>>
+vars == <<phase, seg, file, buf, imm, logPtr, flushed, ptr, span, rlog, rtrunc, rsnap, rhs, acked, nput,
+          recLsm, rec, gcRaft, badRemoval, nops, hist>>
+view == <<phase, seg, file, buf, imm, logPtr, flushed, ptr, span, rlog, rtrunc, rsnap, rhs, acked, nput,
+          recLsm, rec, gcRaft, badRemoval, nops>>
 
 Log(r) == /\ hist' = IF Len(hist) < MaxHist THEN Append(hist, r) ELSE hist
           /\ nops' = nops + 1
-\* exploration bound: at most MaxOps operations before the crash
-Bound == Len(hist) >= 0
-IsRaft(r) == r.t \in {"ent", "hs"}
+IsRaft(r) == r.t \in {"ent", "hs", "snap"}
 Running == phase = "run" /\ nops < MaxOps
 
-Init == /\ phase = "run" /\ seg = 1 /\ file = [s \in {1} |-> <<>>] /\ buf = <<>> /\ imm = <<>>
-        /\ logPtr = 0 /\ flushed = {} /\ ptr = [seg |-> 0, segIndex |-> 0, trunc |-> 0]
-        /\ rlog = <<>> /\ rtrunc = 0 /\ rhs = [term |-> 0, commit |-> 0] /\ acked = {} /\ nput = 0
-        /\ recLsm = {} /\ recLog = <<>> /\ recFirst = 1 /\ recHS = [term |-> 0, commit |-> 0] /\ recFail = FALSE
-        /\ gcRaft = FALSE /\ badRemoval = FALSE /\ nops = 0 /\ hist = <<>>
+NoHS   == [term |-> 0, commit |-> 0]
+NoSnap == [i |-> 0, term |-> 0]
+NoRec  == [first |-> 1, log |-> <<>>, hs |-> NoHS, snap |-> NoSnap, fail |-> FALSE]
 
-SyncBuf == /\ file' = [file EXCEPT ![seg] = @ \o buf] /\ buf' = <<>>
-UNCH_REC == UNCHANGED <<recLsm, recLog, recFirst, recHS, recFail>>
+Init == /\ phase = "run" /\ seg = 1 /\ file = [s \in {1} |-> <<>>] /\ buf = <<>> /\ imm = <<>>
+        /\ logPtr = 0 /\ flushed = {}
+        /\ ptr = [g \in Groups |-> [seg |-> 0, segIndex |-> 0, trunc |-> 0]]
+        /\ span = [g \in Groups |-> [i \in 1..MaxIdx |-> 0]]
+        /\ rlog = [g \in Groups |-> <<>>] /\ rtrunc = [g \in Groups |-> 0]
+        /\ rsnap = [g \in Groups |-> NoSnap] /\ rhs = [g \in Groups |-> NoHS]
+        /\ acked = {} /\ nput = 0
+        /\ recLsm = {} /\ rec = [g \in Groups |-> NoRec]
+        /\ gcRaft = {} /\ badRemoval = FALSE /\ nops = 0 /\ hist = <<>>
+
+UNCH_REC == UNCHANGED <<recLsm, rec>>
+\* every operation ends with the records in the file (wal.Sync after each raft call, SyncWrites for puts)
+Write(recs) == /\ file' = [file EXCEPT ![seg] = @ \o buf \o recs] /\ buf' = <<>>
 
 Put == /\ Running /\ nput < MaxPuts
        /\ nput' = nput + 1
-       /\ file' = [file EXCEPT ![seg] = @ \o buf \o <<[t |-> "lsm", id |-> nput + 1]>>] /\ buf' = <<>>
+       /\ Write(<<[t |-> "lsm", id |-> nput + 1]>>)
        /\ acked' = acked \cup {nput + 1}
        /\ Log([op |-> "Put"])
-       /\ UNCHANGED <<phase, seg, imm, logPtr, flushed, ptr, rlog, rtrunc, rhs, gcRaft, badRemoval>> /\ UNCH_REC
+       /\ UNCHANGED <<phase, seg, imm, logPtr, flushed, ptr, span, rlog, rtrunc, rsnap, rhs, gcRaft, badRemoval>> /\ UNCH_REC
+
+LastTerm(g) == IF rlog[g] = <<>> THEN 0 ELSE rlog[g][Len(rlog[g])]
+\* segment of the newest file record for entry i of group g (0 = none)
+SegOfIdx(g, i) ==
+    LET ss == {s \in DOMAIN file : \E j \in 1..Len(file[s]) : file[s][j].t = "ent" /\ file[s][j].g = g /\ file[s][j].i = i}
+    IN IF ss = {} THEN 0 ELSE Max(ss)
+\* entrySpans[0].segmentID
+FirstSpanSeg(sp) == LET is == {i \in 1..MaxIdx : sp[i] # 0} IN IF is = {} THEN 0 ELSE sp[Min(is)]
+Prune(sp, idx) == [i \in 1..MaxIdx |-> IF i <= idx THEN 0 ELSE sp[i]]
 
 \* append n entries at index from (from <= last+1: a conflicting overwrite truncates the suffix)
-\* segment holding index i = the segment of the newest file/buffer record for i
-SegOfIdx(i) ==
-    LET ss == {s \in DOMAIN file : \E j \in 1..Len(file[s]) : file[s][j].t = "ent" /\ file[s][j].i = i}
-    IN IF ss = {} THEN 0 ELSE Max(ss)
-
-RaftAppend(from, n, term) ==
-    /\ Running /\ from >= rtrunc + 1 /\ from <= Len(rlog) + 1 /\ from + n - 1 <= MaxIdx
-    /\ Len(rlog) > 0 => term >= rlog[Len(rlog)]
-    /\ LET recs == [k \in 1..n |-> [t |-> "ent", i |-> from + k - 1, term |-> term]]
-       IN file' = [file EXCEPT ![seg] = @ \o buf \o recs] /\ buf' = <<>>       \* Sync after append
-    /\ rlog' = SubSeq(rlog, 1, from - 1) \o [k \in 1..n |-> term]
-    /\ ptr' = [ptr EXCEPT !.seg = seg,
-                          !.segIndex = IF ptr.segIndex = 0 THEN seg ELSE ptr.segIndex]
-    /\ Log([op |-> "RaftAppend", from |-> from, n |-> n, term |-> term])
-    /\ UNCHANGED <<phase, seg, imm, logPtr, flushed, rtrunc, rhs, acked, nput, gcRaft, badRemoval>> /\ UNCH_REC
+RaftAppend(g, from, n, term) ==
+    /\ Running /\ from >= rtrunc[g] + 1 /\ from <= Len(rlog[g]) + 1 /\ from + n - 1 <= MaxIdx
+    /\ term >= LastTerm(g) /\ term >= 1
+    /\ Write([k \in 1..n |-> [t |-> "ent", g |-> g, i |-> from + k - 1, term |-> term]])
+    /\ rlog' = [rlog EXCEPT ![g] = SubSeq(@, 1, from - 1) \o [k \in 1..n |-> term]]
+    \* recordEntrySpan: spans from the first new index on are dropped, the new record covers from..from+n-1
+    /\ LET sp == [i \in 1..MaxIdx |-> IF i < from THEN span[g][i] ELSE IF i <= from + n - 1 THEN seg ELSE 0]
+       IN /\ span' = [span EXCEPT ![g] = sp]
+          /\ ptr' = [ptr EXCEPT ![g].seg = seg,
+                                ![g].segIndex = IF @ = 0 THEN FirstSpanSeg(sp) ELSE @]
+    /\ Log([op |-> "RaftAppend", g |-> g, from |-> from, n |-> n, term |-> term])
+    /\ UNCHANGED <<phase, seg, imm, logPtr, flushed, rtrunc, rsnap, rhs, acked, nput, gcRaft, badRemoval>> /\ UNCH_REC
 
 \* SetHardState: a new term (vote) or only a higher commit index; both are one hard-state record
-RaftHS(term, commit) ==
-    /\ Running /\ (term > rhs.term \/ commit > rhs.commit) /\ term >= rhs.term /\ commit >= rhs.commit
-    /\ file' = [file EXCEPT ![seg] = @ \o buf \o <<[t |-> "hs", term |-> term, commit |-> commit]>>] /\ buf' = <<>>
-    /\ rhs' = [term |-> term, commit |-> commit]
-    /\ ptr' = [ptr EXCEPT !.seg = seg]
-    /\ Log([op |-> "RaftHS", term |-> term, commit |-> commit])
-    /\ UNCHANGED <<phase, seg, imm, logPtr, flushed, rlog, rtrunc, acked, nput, gcRaft, badRemoval>> /\ UNCH_REC
+RaftHS(g, term, commit) ==
+    /\ Running /\ (term > rhs[g].term \/ commit > rhs[g].commit) /\ term >= rhs[g].term /\ commit >= rhs[g].commit
+    /\ Write(<<[t |-> "hs", g |-> g, term |-> term, commit |-> commit]>>)
+    /\ rhs' = [rhs EXCEPT ![g] = [term |-> term, commit |-> commit]]
+    /\ ptr' = [ptr EXCEPT ![g].seg = seg]
+    /\ Log([op |-> "RaftHS", g |-> g, term |-> term, commit |-> commit])
+    /\ UNCHANGED <<phase, seg, imm, logPtr, flushed, span, rlog, rtrunc, rsnap, acked, nput, gcRaft, badRemoval>> /\ UNCH_REC
 
 \* compactTo(idx): the truncation point lies in the segment that holds entry idx
-RaftCompact(idx) ==
-    /\ Running /\ idx > rtrunc /\ idx <= Len(rlog) /\ ptr.seg > 0
-    /\ rtrunc' = idx
-    /\ ptr' = [ptr EXCEPT !.trunc = idx,
-                          !.segIndex = IF SegOfIdx(idx) # 0 THEN SegOfIdx(idx) ELSE ptr.segIndex]
-    /\ Log([op |-> "RaftCompact", idx |-> idx])
-    /\ UNCHANGED <<phase, seg, file, buf, imm, logPtr, flushed, rlog, rhs, acked, nput, gcRaft, badRemoval>> /\ UNCH_REC
+RaftCompact(g, idx) ==
+    /\ Running /\ idx > rtrunc[g] /\ idx <= Len(rlog[g]) /\ ptr[g].seg > 0
+    /\ rtrunc' = [rtrunc EXCEPT ![g] = idx]
+    /\ ptr' = [ptr EXCEPT ![g].trunc = idx,
+                          ![g].segIndex = IF span[g][idx] # 0 THEN span[g][idx]
+                                          ELSE IF @ > 0 THEN @ ELSE ptr[g].seg]
+    /\ span' = [span EXCEPT ![g] = Prune(@, idx)]
+    /\ Log([op |-> "RaftCompact", g |-> g, idx |-> idx])
+    /\ UNCHANGED <<phase, seg, file, buf, imm, logPtr, flushed, rlog, rsnap, rhs, acked, nput, gcRaft, badRemoval>> /\ UNCH_REC
+
+\* ApplySnapshot(idx, term): MemoryStorage.ApplySnapshot drops the whole log and restarts it after idx
+\* (refused when not newer than the current snapshot). Spans above idx are NOT pruned (as in the code).
+RaftSnap(g, idx, term) ==
+    /\ Running /\ Snapshots /\ idx > rtrunc[g] /\ idx > rsnap[g].i /\ idx >= rhs[g].commit /\ idx <= MaxIdx /\ term >= 1
+    /\ Write(<<[t |-> "snap", g |-> g, i |-> idx, term |-> term]>>)
+    /\ rlog' = [rlog EXCEPT ![g] = [i \in 1..idx |-> IF i < idx /\ i <= Len(@) THEN @[i] ELSE term]]
+    /\ rtrunc' = [rtrunc EXCEPT ![g] = idx]
+    /\ rsnap' = [rsnap EXCEPT ![g] = [i |-> idx, term |-> term]]
+    /\ ptr' = [ptr EXCEPT ![g] = [seg |-> seg, trunc |-> idx,
+                                  segIndex |-> IF span[g][idx] # 0 THEN span[g][idx] ELSE seg]]
+    /\ span' = [span EXCEPT ![g] = Prune(@, idx)]
+    /\ Log([op |-> "RaftSnap", g |-> g, idx |-> idx, term |-> term])
+    /\ UNCHANGED <<phase, seg, imm, logPtr, flushed, rhs, acked, nput, gcRaft, badRemoval>> /\ UNCH_REC
 
 Rotate == /\ Running /\ seg < MaxSeg
           /\ file' = [s \in (DOMAIN file) \cup {seg + 1} |->
                         IF s = seg THEN file[seg] \o buf ELSE IF s = seg + 1 THEN <<>> ELSE file[s]]
           /\ buf' = <<>> /\ imm' = Append(imm, seg) /\ seg' = seg + 1
           /\ Log([op |-> "Rotate"])
-          /\ UNCHANGED <<phase, logPtr, flushed, ptr, rlog, rtrunc, rhs, acked, nput, gcRaft, badRemoval>> /\ UNCH_REC
+          /\ UNCHANGED <<phase, logPtr, flushed, ptr, span, rlog, rtrunc, rsnap, rhs, acked, nput, gcRaft, badRemoval>> /\ UNCH_REC
 
-\* levels.go canRemoveWalSegment
-CanRemove(s) == (ptr.segIndex > 0 => s < ptr.segIndex) /\ (ptr.seg > 0 => s < ptr.seg)
+\* levels.go canRemoveWalSegment: every group's pointer must allow it
+CanRemove(s) == \A g \in Groups : (ptr[g].segIndex > 0 => s < ptr[g].segIndex) /\ (ptr[g].seg > 0 => s < ptr[g].seg)
 LsmIds(s) == {file[s][j].id : j \in {k \in 1..Len(file[s]) : file[s][k].t = "lsm"}}
 HasRaft(s) == \E j \in 1..Len(file[s]) : IsRaft(file[s][j])
+GroupsIn(S) == {g \in Groups : \E s \in S : \E j \in 1..Len(file[s]) : IsRaft(file[s][j]) /\ file[s][j].g = g}
 \* C36, evaluated at every removal: nothing unflushed, nothing untruncated
 Unsafe(s, lp) == \/ s > lp /\ LsmIds(s) # {}
-                 \/ \E j \in 1..Len(file[s]) : file[s][j].t = "ent" /\ file[s][j].i > rtrunc
-                                                /\ file[s][j].i <= Len(rlog) /\ SegOfIdx(file[s][j].i) = s
+                 \/ \E j \in 1..Len(file[s]) : LET r == file[s][j] IN
+                        r.t = "ent" /\ r.i > rtrunc[r.g] /\ r.i <= Len(rlog[r.g]) /\ SegOfIdx(r.g, r.i) = s
 Drop(S) == file' = [s \in (DOMAIN file) \ S |-> file[s]]
 
 Flush == /\ Running /\ imm # <<>>
          /\ LET t == Head(imm) IN
               /\ flushed' = flushed \cup LsmIds(t) /\ logPtr' = t /\ imm' = Tail(imm)
               /\ IF CanRemove(t)
-                 THEN /\ Drop({t}) /\ gcRaft' = (gcRaft \/ HasRaft(t)) /\ badRemoval' = (badRemoval \/ Unsafe(t, t))
+                 THEN /\ Drop({t}) /\ gcRaft' = gcRaft \cup GroupsIn({t}) /\ badRemoval' = (badRemoval \/ Unsafe(t, t))
                  ELSE UNCHANGED <<file, gcRaft, badRemoval>>
          /\ Log([op |-> "Flush"])
-         /\ UNCHANGED <<phase, seg, buf, ptr, rlog, rtrunc, rhs, acked, nput>> /\ UNCH_REC
+         /\ UNCHANGED <<phase, seg, buf, ptr, span, rlog, rtrunc, rsnap, rhs, acked, nput>> /\ UNCH_REC
 
-Retain == IF ptr.seg = 0 THEN 0
-          ELSE IF ptr.segIndex > 0 THEN Min({ptr.seg, ptr.segIndex}) ELSE ptr.seg
+\* metrics.AnalyzeWALBacklog: minimum over all groups of Segment and SegmentIndex (zero = not set)
+Retain == LET ps == UNION {{ptr[g].seg, ptr[g].segIndex} : g \in Groups} \ {0}
+          IN IF ps = {} THEN 0 ELSE Min(ps)
 Watchdog == /\ Running
             /\ LET rm == {s \in DOMAIN file : s # seg /\ HasRaft(s) /\ s < Retain /\ s <= logPtr}
-               IN /\ Drop(rm) /\ gcRaft' = (gcRaft \/ rm # {})
+               IN /\ Drop(rm) /\ gcRaft' = gcRaft \cup GroupsIn(rm)
                   /\ badRemoval' = (badRemoval \/ \E s \in rm : Unsafe(s, logPtr))
             /\ Log([op |-> "Watchdog"])
-            /\ UNCHANGED <<phase, seg, buf, imm, logPtr, flushed, ptr, rlog, rtrunc, rhs, acked, nput>> /\ UNCH_REC
+            /\ UNCHANGED <<phase, seg, buf, imm, logPtr, flushed, ptr, span, rlog, rtrunc, rsnap, rhs, acked, nput>> /\ UNCH_REC
 
 Crash == /\ phase = "run" /\ MaxHist = 0 /\ phase' = "crashed" /\ buf' = <<>> /\ imm' = <<>>
-         /\ UNCHANGED <<seg, file, logPtr, flushed, ptr, rlog, rtrunc, rhs, acked, nput, gcRaft, badRemoval, nops, hist>> /\ UNCH_REC
+         /\ UNCHANGED <<seg, file, logPtr, flushed, ptr, span, rlog, rtrunc, rsnap, rhs, acked, nput, gcRaft, badRemoval, nops, hist>> /\ UNCH_REC
 
 \* replay of raft records over the surviving segments, in segment then file order
 Surviving == {s \in DOMAIN file : ~(s <= logPtr /\ CanRemove(s))}
@@ -138,38 +177,46 @@ AllRecs == LET ss == SetToSortSeq(Surviving, LAMBDA a, b : a < b)
                RECURSIVE Cat(_)
                Cat(i) == IF i > Len(ss) THEN <<>> ELSE file[ss[i]] \o Cat(i + 1)
            IN Cat(1)
-RECURSIVE Replay(_, _, _, _, _)
-\* state: first (index of log[1]), log (terms), hs, fail
-Replay(recs, first, lg, hs, fail) ==
-    IF recs = <<>> \/ fail THEN [first |-> first, log |-> lg, hs |-> hs, fail |-> fail]
+RECURSIVE Replay(_, _, _)
+\* OpenWALStorage of group g; st: first (index of log[1]), log (terms), hs, snap, fail
+Replay(g, recs, st) ==
+    IF recs = <<>> \/ st.fail THEN st
     ELSE LET r == Head(recs) IN
-         IF r.t = "hs" THEN Replay(Tail(recs), first, lg, [term |-> r.term, commit |-> r.commit], fail)
-         ELSE IF r.t = "ent"
-              THEN IF r.i > first + Len(lg)                 \* MemoryStorage.Append: missing log entry (panic)
-                   THEN Replay(Tail(recs), first, lg, hs, TRUE)
-                   ELSE IF r.i < first THEN Replay(Tail(recs), first, lg, hs, fail)
-                   ELSE Replay(Tail(recs), first, SubSeq(lg, 1, r.i - first) \o <<r.term>>, hs, fail)
-              ELSE Replay(Tail(recs), first, lg, hs, fail)
+         IF ~IsRaft(r) \/ r.g # g THEN Replay(g, Tail(recs), st)
+         ELSE IF r.t = "hs" THEN Replay(g, Tail(recs), [st EXCEPT !.hs = [term |-> r.term, commit |-> r.commit]])
+         ELSE IF r.t = "snap"
+              THEN IF st.snap.i >= r.i                      \* MemoryStorage.ApplySnapshot: ErrSnapOutOfDate
+                   THEN Replay(g, Tail(recs), [st EXCEPT !.fail = TRUE])
+                   ELSE Replay(g, Tail(recs), [st EXCEPT !.snap = [i |-> r.i, term |-> r.term], !.first = r.i + 1, !.log = <<>>])
+         ELSE IF r.i > st.first + Len(st.log)               \* MemoryStorage.Append: missing log entry (panic)
+              THEN Replay(g, Tail(recs), [st EXCEPT !.fail = TRUE])
+              ELSE IF r.i < st.first THEN Replay(g, Tail(recs), st)
+              ELSE Replay(g, Tail(recs), [st EXCEPT !.log = SubSeq(@, 1, r.i - st.first) \o <<r.term>>])
 
 \* LSM.recovery removes the segments at or below the log pointer that canRemoveWalSegment allows,
 \* then OpenWALStorage replays what is left
 Recover == /\ phase = "crashed" /\ phase' = "recovered"
            /\ LET rm == (DOMAIN file) \ Surviving IN
                 /\ Drop(rm)
-                /\ gcRaft' = (gcRaft \/ \E s \in rm : HasRaft(s))
+                /\ gcRaft' = gcRaft \cup GroupsIn(rm)
                 /\ badRemoval' = (badRemoval \/ \E s \in rm : Unsafe(s, logPtr))
            /\ recLsm' = flushed \cup UNION {LsmIds(s) : s \in Surviving}
-           /\ LET res == Replay(AllRecs, 1, <<>>, [term |-> 0, commit |-> 0], FALSE)
-              IN recLog' = res.log /\ recFirst' = res.first /\ recHS' = res.hs /\ recFail' = res.fail
-           /\ UNCHANGED <<seg, buf, imm, logPtr, flushed, ptr, rlog, rtrunc, rhs, acked, nput, nops, hist>>
+           /\ rec' = [g \in Groups |-> Replay(g, AllRecs, NoRec)]
+           /\ UNCHANGED <<seg, buf, imm, logPtr, flushed, ptr, span, rlog, rtrunc, rsnap, rhs, acked, nput, nops, hist>>
 
-Next == \/ Put \/ Rotate \/ Flush \/ Watchdog \/ Crash \/ Recover
+RaftOps(g) ==
         \* appends extend the log, or overwrite its last entry with a higher term (conflict)
-        \/ \E n \in 1..2 : RaftAppend(Len(rlog) + 1, n, IF rlog = <<>> THEN 1 ELSE rlog[Len(rlog)])
-        \/ (rlog # <<>> /\ Len(rlog) > rtrunc /\ rlog[Len(rlog)] < MaxTerm /\ RaftAppend(Len(rlog), 1, rlog[Len(rlog)] + 1))
-        \/ (rhs.term < MaxTerm /\ RaftHS(rhs.term + 1, rhs.commit))
-        \/ (rhs.commit < Len(rlog) /\ RaftHS(rhs.term, rhs.commit + 1))      \* only the commit index moves
-        \/ \E idx \in {rtrunc + 1, Len(rlog)} : RaftCompact(idx)
+        \/ \E n \in 1..2 : RaftAppend(g, Len(rlog[g]) + 1, n, IF LastTerm(g) = 0 THEN 1 ELSE LastTerm(g))
+        \/ (rlog[g] # <<>> /\ Len(rlog[g]) > rtrunc[g] /\ LastTerm(g) < MaxTerm /\ RaftAppend(g, Len(rlog[g]), 1, LastTerm(g) + 1))
+        \/ (rhs[g].term < MaxTerm /\ RaftHS(g, rhs[g].term + 1, rhs[g].commit))
+        \/ (rhs[g].commit < Len(rlog[g]) /\ RaftHS(g, rhs[g].term, rhs[g].commit + 1))      \* only the commit index moves
+        \/ \E idx \in {rtrunc[g] + 1, Len(rlog[g])} : RaftCompact(g, idx)
+        \* snapshots: beyond the log (a lagging follower), at its last entry, or in the middle (later entries dropped)
+        \/ RaftSnap(g, Len(rlog[g]) + 1, IF LastTerm(g) = 0 THEN 1 ELSE LastTerm(g))
+        \/ (Len(rlog[g]) > rtrunc[g] /\ RaftSnap(g, Len(rlog[g]), LastTerm(g)))
+        \/ (rtrunc[g] + 1 < Len(rlog[g]) /\ RaftSnap(g, rtrunc[g] + 1, rlog[g][rtrunc[g] + 1]))
+Next == \/ Put \/ Rotate \/ Flush \/ Watchdog \/ Crash \/ Recover
+        \/ \E g \in Groups : RaftOps(g)
 Spec == Init /\ [][Next]_vars
 
 \* ------------------------------------------------------------------- properties
@@ -177,15 +224,18 @@ Spec == Init /\ [][Next]_vars
 RemovalSafe == ~badRemoval
 \* C09 for the shared WAL: acknowledged puts survive
 LsmDurable == phase = "recovered" => acked \subseteq recLsm
-\* C21: exact recovery of the raft state
-RaftExact == /\ ~recFail
-             /\ recHS = rhs
-             /\ recFirst + Len(recLog) - 1 = Len(rlog)
-             /\ \A i \in (rtrunc + 1)..Len(rlog) : i >= recFirst /\ recLog[i - recFirst + 1] = rlog[i]
-\* recorded deviation (finding C21-log-gc): once a raft-bearing segment has been garbage collected
-\* (legitimately: everything in it is truncated), replay starts in the middle of the log
-RaftExactModuloKnown == phase = "recovered" => (RaftExact \/ gcRaft)
-RaftExactStrict == phase = "recovered" => RaftExact
+\* C21: exact recovery of the raft state of group g
+RaftExact(g) ==
+    LET r == rec[g] IN
+    /\ ~r.fail
+    /\ r.hs = rhs[g]
+    /\ r.snap = rsnap[g]
+    /\ r.first + Len(r.log) - 1 = Len(rlog[g])
+    /\ \A i \in (rtrunc[g] + 1)..Len(rlog[g]) : i >= r.first /\ r.log[i - r.first + 1] = rlog[g][i]
+\* recorded deviation (finding C21-log-gc): once a segment bearing records of the group has been garbage
+\* collected (legitimately: everything in it is truncated), replay starts in the middle of the log
+RaftExactModuloKnown == phase = "recovered" => \A g \in Groups : (RaftExact(g) \/ g \in gcRaft)
+RaftExactStrict == phase = "recovered" => \A g \in Groups : RaftExact(g)
 
 EmitHist == (Len(hist) = MaxHist) => PrintT(<<"SCHED", ToJson(hist)>>)
 =============================================================================
